@@ -90,16 +90,25 @@ pub fn random_cfg(r: &mut Rng) -> Cfg {
     }
 }
 
-pub fn hub_instantiate_msg(c: &Cfg) -> h::InstantiateMsg {
-    h::InstantiateMsg {
-        epoch_period: c.epoch_period,
-        underlying_coin_denom: USEI.into(),
-        unbonding_period: c.unbonding_period,
-        peg_recovery_fee: c.peg_recovery_fee,
-        er_threshold: c.er_threshold,
-        reward_denom: KUSD.into(),
-        update_reward_index_addr: UPDATER.into(),
+/// Messages and records of the contracts are built from JSON rather than as struct literals, so that a field added to
+/// one of them (with a serde default) does not break the harness build.
+pub fn mk<T: serde::de::DeserializeOwned>(v: serde_json::Value) -> T {
+    match serde_json::from_value(v.clone()) {
+        Ok(t) => t,
+        Err(e) => panic!("harness cannot build {} from {}: {}", std::any::type_name::<T>(), v, e),
     }
+}
+
+pub fn hub_instantiate_msg(c: &Cfg) -> h::InstantiateMsg {
+    mk(serde_json::json!({
+        "epoch_period": c.epoch_period,
+        "underlying_coin_denom": USEI,
+        "unbonding_period": c.unbonding_period,
+        "peg_recovery_fee": c.peg_recovery_fee,
+        "er_threshold": c.er_threshold,
+        "reward_denom": KUSD,
+        "update_reward_index_addr": UPDATER,
+    }))
 }
 
 pub fn dispatcher_instantiate_msg(c: &Cfg) -> basset_sei_rewards_dispatcher::msg::InstantiateMsg {
@@ -107,17 +116,17 @@ pub fn dispatcher_instantiate_msg(c: &Cfg) -> basset_sei_rewards_dispatcher::msg
     if c.extra_denom {
         swap_denoms.push(UATOM.to_string());
     }
-    basset_sei_rewards_dispatcher::msg::InstantiateMsg {
-        hub_contract: HUB.into(),
-        bsei_reward_contract: REWARD.into(),
-        stsei_reward_denom: USEI.into(),
-        bsei_reward_denom: KUSD.into(),
-        krp_keeper_address: KEEPER.into(),
-        krp_keeper_rate: c.keeper_rate,
-        swap_contract: SWAP.into(),
-        swap_denoms,
-        oracle_contract: ORACLE.into(),
-    }
+    mk(serde_json::json!({
+        "hub_contract": HUB,
+        "bsei_reward_contract": REWARD,
+        "stsei_reward_denom": USEI,
+        "bsei_reward_denom": KUSD,
+        "krp_keeper_address": KEEPER,
+        "krp_keeper_rate": c.keeper_rate,
+        "swap_contract": SWAP,
+        "swap_denoms": swap_denoms,
+        "oracle_contract": ORACLE,
+    }))
 }
 
 #[derive(Clone, Debug, Default)]
@@ -142,25 +151,19 @@ pub fn build_world(c: &Cfg) -> Result<World, String> {
 pub fn build_world_with(c: &Cfg, o: &WorldOpts) -> Result<World, String> {
     let mut w = World::new(START_TIME, c.unbonding_period, USEI, KUSD, c.price);
     w.other_prices.insert(UATOM.into(), dec("7.5"));
-    let es = |e: cosmwasm_std::StdError| e.to_string();
 
     let msg = hub_instantiate_msg(c);
     instantiate_with(&mut w, HUB, Kind::Hub, OWNER, |d, e, i| {
-        basset_sei_hub::contract::instantiate(d, e, i, msg).map_err(es)
+        basset_sei_hub::contract::instantiate(d, e, i, msg).map_err(|e| e.to_string())
     })?;
     instantiate_with(&mut w, REWARD, Kind::Reward, OWNER, |d, e, i| {
         basset_sei_reward::contract::instantiate(
             d,
             e,
             i,
-            basset::reward::InstantiateMsg {
-                hub_contract: HUB.into(),
-                reward_denom: KUSD.into(),
-                swap_contract: SWAP.into(),
-                swap_denoms: vec![],
-            },
+            mk(serde_json::json!({"hub_contract": HUB, "reward_denom": KUSD, "swap_contract": SWAP, "swap_denoms": []})),
         )
-        .map_err(es)
+        .map_err(|e| e.to_string())
     })?;
     let mut dmsg = dispatcher_instantiate_msg(c);
     if o.reward_is_dummy {
@@ -168,54 +171,36 @@ pub fn build_world_with(c: &Cfg, o: &WorldOpts) -> Result<World, String> {
     }
     let (bsei_initial, stsei_initial) = (o.bsei_initial.clone(), o.stsei_initial.clone());
     instantiate_with(&mut w, DISPATCHER, Kind::Dispatcher, OWNER, |d, e, i| {
-        basset_sei_rewards_dispatcher::contract::instantiate(d, e, i, dmsg).map_err(es)
+        basset_sei_rewards_dispatcher::contract::instantiate(d, e, i, dmsg).map_err(|e| e.to_string())
     })?;
-    let vals: Vec<_> = VALIDATORS[..c.n_validators]
-        .iter()
-        .map(|v| basset_sei_validators_registry::registry::Validator { address: v.to_string() })
-        .collect();
+    let vals: Vec<serde_json::Value> = VALIDATORS[..c.n_validators].iter().map(|v| serde_json::json!({"address": v})).collect();
     instantiate_with(&mut w, REGISTRY, Kind::Registry, OWNER, |d, e, i| {
         basset_sei_validators_registry::contract::instantiate(
             d,
             e,
             i,
-            basset_sei_validators_registry::msg::InstantiateMsg { hub_contract: HUB.into(), registry: vals },
+            mk(serde_json::json!({"hub_contract": HUB, "registry": vals})),
         )
-        .map_err(es)
+        .map_err(|e| e.to_string())
     })?;
     instantiate_with(&mut w, BSEI, Kind::BSei, OWNER, |d, e, i| {
         basset_sei_token_bsei::contract::instantiate(
             d,
             e,
             i,
-            basset_sei_token_bsei::msg::TokenInitMsg {
-                name: "bonded sei".into(),
-                symbol: "BSEI".into(),
-                decimals: 6,
-                initial_balances: bsei_initial,
-                hub_contract: HUB.into(),
-            },
+            mk(serde_json::json!({"name": "bonded sei", "symbol": "BSEI", "decimals": 6, "initial_balances": bsei_initial, "hub_contract": HUB})),
         )
-        .map_err(es)
+        .map_err(|e| e.to_string())
     })?;
     instantiate_with(&mut w, STSEI, Kind::StSei, OWNER, |d, e, i| {
         basset_sei_token_stsei::contract::instantiate(
             d,
             e,
             i,
-            basset_sei_token_stsei::msg::TokenInitMsg {
-                name: "staked sei".into(),
-                symbol: "STSEI".into(),
-                decimals: 6,
-                initial_balances: stsei_initial,
-                hub_contract: HUB.into(),
-                marketing: Some(cw20_base::msg::InstantiateMarketingInfo {
-                    project: None,
-                    description: None,
-                    marketing: Some(OWNER.into()),
-                    logo: None,
-                }),
-            },
+            mk(serde_json::json!({
+                "name": "staked sei", "symbol": "STSEI", "decimals": 6, "initial_balances": stsei_initial, "hub_contract": HUB,
+                "marketing": {"project": null, "description": null, "marketing": OWNER, "logo": null},
+            })),
         )
         .map_err(|e| e.to_string())
     })?;
@@ -227,16 +212,19 @@ pub fn build_world_with(c: &Cfg, o: &WorldOpts) -> Result<World, String> {
     let r = w.tx(
         OWNER,
         HUB,
-        &to_json_binary(&h::ExecuteMsg::UpdateConfig {
-            rewards_dispatcher_contract: Some(DISPATCHER.into()),
-            validators_registry_contract: if o.skip_registry { None } else { Some(REGISTRY.into()) },
-            bsei_token_contract: if o.skip_bsei_token { None } else { Some(BSEI.into()) },
-            stsei_token_contract: if o.skip_stsei_token { None } else { Some(STSEI.into()) },
-            airdrop_registry_contract: if o.skip_registry { None } else { Some(AIRDROP.into()) },
-            rewards_contract: Some(REWARD.into()),
-            update_reward_index_addr: None,
-        })
-        .unwrap(),
+        &cosmwasm_std::Binary::from(
+            serde_json::json!({"update_config": {
+                "rewards_dispatcher_contract": DISPATCHER,
+                "validators_registry_contract": if o.skip_registry { None } else { Some(REGISTRY) },
+                "bsei_token_contract": if o.skip_bsei_token { None } else { Some(BSEI) },
+                "stsei_token_contract": if o.skip_stsei_token { None } else { Some(STSEI) },
+                "airdrop_registry_contract": if o.skip_registry { None } else { Some(AIRDROP) },
+                "rewards_contract": REWARD,
+                "update_reward_index_addr": null,
+            }})
+            .to_string()
+            .into_bytes(),
+        ),
         &[],
     );
     if !r.ok {
